@@ -20,25 +20,49 @@ static J gen_culling(Chooser &ch)
   // a targeted share: long, shallowly dipping slab on a north-south trench that spans many degrees of latitude
   // (the longitude extent of a member then differs most from what the trench coordinates alone suggest)
   const bool shallow_ns = w.fr.sph && ch.chance(35);
+  bool near_pole_end = false;
   if (shallow_ns)
     {
       J &f = w.root["features"][0];
-      const double lon0 = ch.lattice(-150, 150, 0.25), lat0 = ch.pick<double>({45.0, 50.0, -50.0, 55.0, -60.0});
-      const double span = ch.lattice(10, 25, 0.25) * (lat0 > 0 ? 1 : -1);
+      const double lon0 = ch.lattice(-150, 150, 0.25), lat0 = ch.pick<double>({45.0, 50.0, -50.0, 55.0, -60.0, 62.0, -45.0, -55.0});
+      // 30%: the trench runs on to within 1.5..4 degrees of the pole (the box's longitude buffer is scaled with 1/cos of a trench latitude)
+      near_pole_end = ch.chance(30);
+      const double span = (near_pole_end ? (ch.lattice(86, 88.5, 0.25) - std::fabs(lat0)) : ch.lattice(10, 25, 0.25)) * (lat0 > 0 ? 1 : -1);
       f["coordinates"] = J::arr({jp(lon0, lat0), jp(lon0 + ch.lattice(-1, 1, 0.25), lat0 + 0.5 * span), jp(lon0, lat0 + span)});
       f["dip point"] = jp(lon0 + (ch.flip() ? 40.0 : -40.0), lat0 + 0.5 * span);
       const double dip = ch.lattice(8, 25, 1);
       J seg = J::obj();
-      seg["length"] = ch.lattice(500e3, 1000e3, 50e3) * (w.fr.R / 6371e3);
+      seg["length"] = (ch.chance(40) ? ch.lattice(50e3, 200e3, 10e3) : ch.lattice(200e3, 1000e3, 50e3)) * (w.fr.R / 6371e3);
       seg["thickness"] = J::arr({J(ch.lattice(40e3, 80e3, 10e3))});
       seg["angle"] = J::arr({J(dip)});
       f["segments"] = J::arr({seg});
+      f.erase("sections");
+      f.erase("min depth");
+      w.feats[0].dmin = 0;
+      w.feats[0].reach = seg["length"].num() + seg["thickness"][0].num();
+    }
+  // a targeted share: an east-west trench close to a pole whose shallow slab dips poleward, so that the member reaches (and passes)
+  // the pole, where a degree of longitude is arbitrarily short
+  const bool polar = w.fr.sph && !shallow_ns && ch.chance(20);
+  if (polar)
+    {
+      J &f = w.root["features"][0];
+      const double sgn = ch.flip() ? 1.0 : -1.0;
+      const double lon0 = ch.lattice(-150, 120, 0.25), lat0 = sgn * ch.pick<double>({78.0, 80.0, 82.0, 84.0}), dl = ch.lattice(10, 30, 0.25);
+      f["coordinates"] = J::arr({jp(lon0, lat0), jp(lon0 + 0.5 * dl, lat0 + ch.lattice(-1, 1, 0.25)), jp(lon0 + dl, lat0)});
+      f["dip point"] = jp(lon0 + 0.5 * dl, sgn * 89.5);
+      J seg = J::obj();
+      seg["length"] = ch.lattice(500e3, 1000e3, 50e3) * (w.fr.R / 6371e3);
+      seg["thickness"] = J::arr({J(ch.lattice(40e3, 80e3, 10e3))});
+      seg["angle"] = J::arr({J(ch.lattice(8, 25, 1))});
+      f["segments"] = J::arr({seg});
+      f.erase("sections");
       f.erase("min depth");
       w.feats[0].dmin = 0;
       w.feats[0].reach = seg["length"].num() + seg["thickness"][0].num();
     }
   // stress the bounds: high latitudes, trenches next to +-180, deep starts, shallow dips
-  if (w.fr.sph && !shallow_ns && ch.chance(50))
+  if (w.fr.sph && !shallow_ns && !polar && ch.chance(50))
     for (auto &f : w.root["features"].a)
       if (ch.flip())
         {
@@ -64,6 +88,21 @@ static J gen_culling(Chooser &ch)
   for (int i = 0; i < n; ++i)
     {
       const g::FM &m = w.feats[ch.index(w.feats.size())];
+      if (polar && &m == &w.feats[0] && ch.chance(70))
+        {
+          // from a trench point along the meridian towards and across the pole, by most of the member's horizontal extent, a little
+          // below the depth the surface has there; built in cartesian coordinates (longitude / latitude arithmetic fails at the pole)
+          const J &f = w.root.at("features")[0];
+          const double dip = f.at("segments")[0].at("angle")[0].num() * DEG;
+          const double along = ch.real(0.3, 1.0) * (m.reach - 40e3), dep = std::min(0.9 * w.fr.R, along * std::sin(dip) + ch.real(2e3, 35e3));
+          const double t = ch.real(0, 1);
+          const double lon = (m.coords[0][0] + t * (m.coords.back()[0] - m.coords[0][0])) * DEG, lat = m.coords[0][1] * DEG;
+          const double th = lat + (lat > 0 ? 1 : -1) * along * std::cos(dip) / (w.fr.R - dep); // may pass +-pi/2: the far side of the pole
+          const double rr = w.fr.R - dep;
+          const double X = rr * std::cos(th) * std::cos(lon), Y = rr * std::cos(th) * std::sin(lon), Z = rr * std::sin(th);
+          qs.push(g::make_query(w.fr, std::atan2(Y, X) / DEG, std::asin(Z / rr) / DEG, dep));
+          continue;
+        }
       if (ch.chance(30)) { qs.push(g::gen_query(ch, w, &m)); continue; }
       if (ch.chance(45))
         {
@@ -73,8 +112,9 @@ static J gen_culling(Chooser &ch)
           const double dip = f.at("segments")[0].at("angle")[0].num() * DEG;
           const double frac = ch.real(0.55, 1.0), along = frac * (m.reach - 40e3);
           const double hor = along * std::cos(dip), dep = m.dmin + along * std::sin(dip) + ch.real(5e3, 35e3);
-          const size_t k = ch.index(m.coords.size() - 1);
-          const double t = ch.real(0, 1);
+          size_t k = ch.index(m.coords.size() - 1);
+          double t = ch.real(0, 1);
+          if (near_pole_end && &m == &w.feats[0] && ch.chance(60)) { k = m.coords.size() - 2; t = ch.real(0.9, 1.0); } // next to the polar end of the trench
           const double px = m.coords[k][0] + t * (m.coords[k + 1][0] - m.coords[k][0]), py = m.coords[k][1] + t * (m.coords[k + 1][1] - m.coords[k][1]);
           const double tx = m.coords[k + 1][0] - m.coords[k][0], ty = m.coords[k + 1][1] - m.coords[k][1], tn = std::sqrt(tx * tx + ty * ty);
           double nx = -ty / tn, ny = tx / tn;
@@ -124,7 +164,7 @@ static Result check_culling(const J &c)
           if (ta != tb) return Result::fail("culling-exception", std::string("with shortcuts ") + (ta ? "the query throws" : "the query answers") + ", without them it " + (tb ? "throws" : "answers") + "; query " + q.dump());
           continue;
         }
-      if (b.back() != -1) { r.nontrivial = true; r.inner_nt++; r.classes.push_back(sph ? "inside (spherical)" : "inside (cartesian)"); }
+      if (b.back() != -1) { r.nontrivial = true; r.inner_nt++; r.classes.push_back(sph ? "inside (spherical)" : "inside (cartesian)"); if (sph && std::fabs(q.at("nat")[1].num()) > 85) r.classes.push_back("inside, within 5 degrees of a pole"); }
       for (size_t i = 0; i < a.size(); ++i)
         if (!same_bits(a[i], b[i]) && !(std::isnan(a[i]) && std::isnan(b[i])))
           return Result::fail(a.back() == -1 && b.back() != -1 ? (sph ? "culled-member-spherical" : "culled-member-cartesian") : "culling-changes-value",
